@@ -285,11 +285,31 @@ func c07CopyWitness(kind string) {
 	s.end()
 }
 
+func init() { runners["c07race"] = runC07Race }
+
+// the same workload, reduced, for the binary built with the race detector (the trace is not
+// checked there: the detector's report is the result)
+func runC07Race(tier string, seed uint64) {
+	rng := NewRng(seed)
+	for _, kind := range allKinds {
+		c07Forced(kind, rng)
+		c07Rounds(kind, rng, 6, 4, false)
+		c07Rounds(kind, rng, 3, 16, false)
+		c07MultipartForced(kind)
+		c07MultipartRounds(kind, rng, 8)
+	}
+	c07Rounds("mem", rng, 8, 5, true)
+	c07VersionStress(rng, 8, 30)
+}
+
 func runC07(tier string, seed uint64) {
 	rng := NewRng(seed)
 	rounds, reps := 25, 2
 	if tier == "thorough" {
 		rounds, reps = 60, 12
+	}
+	for i := 0; i < reps; i++ {
+		c07VersionStress(rng, 16, 40)
 	}
 	for _, kind := range allKinds {
 		c07Forced(kind, rng)
@@ -312,6 +332,7 @@ func runC07(tier string, seed uint64) {
 		}
 	}
 	sample("forced interleavings on every backend: a PUT whose body reader is gated (slow uploader) while a GET of the same key, a PUT of another key and a listing by other clients must complete and see the old object; a GET whose ResponseWriter is gated (slow reader) overlapped by an overwrite and by a delete of the same key — the download must deliver in full the object it captured")
+	sample("16 clients x 40 simultaneous versioned PUTs (two thirds on one hot key) on the memory backend: every acknowledged upload has a version id of its own under which exactly its bytes are served; the same workload (reduced) runs in a binary built with -race, whose reports on gofakes3 code are violations")
 	sample("multipart: the backend write of a CompleteMultipartUpload is held open while a part upload, a second complete, an abort and a part listing of the same upload arrive (both must finish; responses must have a sequential explanation); rounds of 2..5 simultaneous part uploads / completes / aborts / part listings / reads over 2..3 pending uploads on 1..2 keys, searched for a sequential order on the model")
 	sample("rounds of 2, 4, 6 and 16 simultaneous requests (put with unique bodies / get / head / delete / copy over 1..4 keys; memory backend also with versioning enabled): a round is accepted iff some sequential order of its requests reproduces every observed response (status, body, ETag, length, version id) on the model — searched per key for single-key rounds, over all permutations for rounds with a copy")
 }
